@@ -262,6 +262,15 @@ def sym_program_job(prog: str) -> JobOut:
                         got[idx] = model.at(alg, k, idx, sizes=sizes)
                 if np.asarray(got).shape != np.asarray(want).shape or not num_close(got, want):
                     return True, {"sizes": sizes, "engine": how, "got": np.asarray(got).tolist(), "want": np.asarray(want).tolist()}
+                # an out-of-bounds read usually returns zeros/plausible data in the compiled kernel: the numeric
+                # interpreter checks every subscript against the array bounds
+                try:
+                    alg = NumAlg(data)
+                    for idx in itertools.product(*[range(n) for n in np.asarray(want).shape]):
+                        model.at(alg, k, idx, sizes=sizes)
+                except IndexError as e:
+                    return True, {"sizes": sizes, "engine": "numeric kernel interpreter (bounds-checked reads)",
+                                  "out_of_bounds": str(e)}
             return False, {"why": "term mismatch not confirmed numerically"}
         smp = {s: 3 for s in P.sizes} | {f"i{d}": 0 for d in range(nd)} | {f"k{d}": 0 for d in range(6)}
         obs.append(FnOb(f"{prog}/one-kernel-every-size/{k}", params, body_c, pre_c, [smp], timeout=240,
